@@ -313,7 +313,11 @@ func (m *immutableMap) Interface() any {
 	t := reflect.MakeMapWithSize(reflect.MapOf(keyType, valueType), len(m.value))
 	for _, bucket := range m.value {
 		for _, pair := range bucket {
-			t.SetMapIndex(reflect.ValueOf(InterfaceOf(pair[0])), reflect.ValueOf(InterfaceOf(pair[1])))
+			if v := InterfaceOf(pair[1]); v != nil {
+				t.SetMapIndex(reflect.ValueOf(InterfaceOf(pair[0])), reflect.ValueOf(v))
+			} else {
+				t.SetMapIndex(reflect.ValueOf(InterfaceOf(pair[0])), reflect.Zero(valueType))
+			}
 		}
 	}
 	return t.Interface()
